@@ -29,6 +29,7 @@ def chain_texts(f, node) -> list[str]:
 
 def run(chk: Check) -> None:
     ix = get_index()
+    run_codes_and_unused(chk, ix)
     aei = ix.func("mypy.errors.Errors.add_error_info")
     g = CFG(aei.node)
 
@@ -336,3 +337,74 @@ def run(chk: Check) -> None:
         r4.ok("count_stats classifies by ': error:' / ': note:' severity markers", cs.loc())
     else:
         r4.violation("count_stats classifies by ': error:' / ': note:' severity markers", cs.loc(), "severity markers changed")
+
+
+def run_codes_and_unused(chk: Check, ix) -> None:
+    from ..pattern import find_all, has
+    # ---------------- R13.6
+    r6 = chk.rule("R13.6", "enabling an error code overrides disabling it wherever the two option lists are turned into code sets: process_error_codes subtracts the enabled set from the disabled set after both were filled; apply_changes applies disable_error_code first and enable_error_code second, each moving the code between the two sets", floor=4)
+    pec = ix.func("mypy.options.Options.process_error_codes")
+    g = CFG(pec.node)
+    fills = [n for n in g.nodes if n.kind == "stmt" and isinstance(n.stmt, ast.AugAssign) and isinstance(n.stmt.op, ast.BitOr) and norm(n.stmt.target) in ("self.disabled_error_codes", "self.enabled_error_codes")]
+    sub = [n for n in g.nodes if n.kind == "stmt" and isinstance(n.stmt, ast.AugAssign) and isinstance(n.stmt.op, ast.Sub) and norm(n.stmt) == "self.disabled_error_codes -= self.enabled_error_codes"]
+    if len(fills) == 2 and sub and all(sub[0] in g.reachable([f_], labels_excluded=("exc",)) and f_ not in g.reachable(sub, labels_excluded=("exc",)) for f_ in fills) and g.must_pass(g.entry, [g.exit], sub, labels_excluded=("exc",)):
+        r6.ok("process_error_codes: disabled -= enabled after both sets were filled, on every normal path", pec.loc(sub[0].stmt))
+    else:
+        r6.violation("process_error_codes: disabled -= enabled after both sets were filled, on every normal path", pec.loc(), "a code that is both disabled and enabled on the command line / in the config can stay disabled")
+    ac = ix.func("mypy.options.Options.apply_changes")
+    loops = [l for l in ac.node.body if isinstance(l, ast.For)]
+    dis = [l for l in loops if norm(l.iter).endswith(".disable_error_code")]
+    en = [l for l in loops if norm(l.iter).endswith(".enable_error_code")]
+    if dis and en and dis[0].lineno < en[0].lineno:
+        r6.ok("apply_changes: disable_error_code is applied before enable_error_code", ac.loc(en[0]))
+    else:
+        r6.violation("apply_changes: disable_error_code is applied before enable_error_code", ac.loc(), "the per-module disable list is applied last (or one list is not applied): enabling a code in a section no longer overrides disabling it")
+    for which, lp, add_to, drop_from in (("disable", dis, "disabled_error_codes", "enabled_error_codes"), ("enable", en, "enabled_error_codes", "disabled_error_codes")):
+        key = f"apply_changes: {which}_error_code adds to {add_to} and removes from {drop_from}"
+        if lp and has(lp[0], f"$o.{add_to}.add($c)") and has(lp[0], f"$o.{drop_from}.discard($c)"):
+            r6.ok(key, ac.loc(lp[0]))
+        else:
+            r6.violation(key, ac.loc(lp[0]) if lp else ac.loc(), "the loop does not move the code between the two sets: a code can end up in both (or neither) set, and is_error_code_enabled then answers by test order instead of by the last setting")
+    inh = has(ac.node, "$n.disabled_error_codes = self.disabled_error_codes.copy()") and has(ac.node, "$n.enabled_error_codes = self.enabled_error_codes.copy()")
+    if inh:
+        r6.ok("apply_changes starts from copies of the inherited code sets", ac.loc())
+    else:
+        r6.violation("apply_changes starts from copies of the inherited code sets", ac.loc(), "per-module code sets do not start from (a copy of) the inherited sets: a section's codes leak into or are cut off from the global sets")
+
+    # ---------------- R13.7
+    r7 = chk.rule("R13.7", "unused-ignore reporting: skipped for typeshed / ignored files / skipped lines; a comment with codes is reported iff one of its codes was not used, a bare comment iff nothing was used; reported through report_simple_error (never through the ignore logic); ignore-without-code only for bare comments and not on top of an unused-ignore warning", floor=6)
+    gu = ix.func("mypy.errors.Errors.generate_unused_ignore_errors")
+    gw = ix.func("mypy.errors.Errors.generate_ignore_without_code_errors")
+    for f in (gu, gw):
+        first = f.node.body[0]
+        key = f"{f.name}: nothing is generated for typeshed or files whose errors are ignored"
+        if isinstance(first, ast.If) and norm(first.test) in ("is_typeshed or file in self.ignored_files", "file in self.ignored_files or is_typeshed") and isinstance(first.body[0], ast.Return):
+            r7.ok(key, f.loc(first))
+        else:
+            r7.violation(key, f.loc(first), "unused-ignore style diagnostics are produced for files whose errors are ignored wholesale (every ignore there looks unused)")
+        key = f"{f.name}: lines in skipped_lines (unreachable code) are not reported"
+        if has(f.node, "if $l in self.skipped_lines[file]:\n    continue"):
+            r7.ok(key, f.loc())
+        else:
+            r7.violation(key, f.loc(), "ignore comments in code that was skipped as unreachable would be reported as unused")
+        simple = [c for c in ast.walk(f.node) if isinstance(c, ast.Call) and call_name(c) == "report_simple_error"]
+        other = [c for c in ast.walk(f.node) if isinstance(c, ast.Call) and call_name(c) in ("report", "add_error_info")]
+        key = f"{f.name}: reports through report_simple_error only"
+        if simple and not other:
+            r7.ok(key, f.loc(simple[0]))
+        else:
+            r7.violation(key, f.loc(), "the diagnostic goes through the ignore logic and is itself swallowed by the comment it is about")
+    b = find_all(gu.node, [
+        "$used = set($ul[$line])",
+        "$unused = [$c for $c in $ign if $c not in $used]",
+        "if not $ign and $used:\n    continue",
+        "if $ign and (not $unused):\n    continue",
+    ])
+    if b:
+        r7.ok("unused-ignore: `ignore[codes]` reported iff a listed code is unused; bare `ignore` iff nothing was used", gu.loc())
+    else:
+        r7.violation("unused-ignore: `ignore[codes]` reported iff a listed code is unused; bare `ignore` iff nothing was used", gu.loc(), "the decision which comments are unused no longer has this shape (listed codes minus used codes; two skip conditions)")
+    if has(gw.node, "if $codes:\n    continue") and has(gw.node, "if is_warning_unused_ignores and (not $u[$l]):\n    continue"):
+        r7.ok("ignore-without-code: only bare comments; not in addition to an unused-ignore warning", gw.loc())
+    else:
+        r7.violation("ignore-without-code: only bare comments; not in addition to an unused-ignore warning", gw.loc(), "the two skip conditions of generate_ignore_without_code_errors changed")
